@@ -936,7 +936,7 @@ def run_sweep(ctx, rep, bins):
         shards[k].append(i)
         load[k] += ds[i]["count"]
     shards = [sorted(sh) for sh in shards if sh]
-    work = os.path.join(ctx.work, "sweep")
+    work = os.path.join(ctx.work, "sweep_%d" % os.getpid())      # per run: concurrent ./check C16 on one tree must not share (or rmtree) it
     shutil.rmtree(work, ignore_errors=True)
     os.makedirs(work)
 
@@ -1003,7 +1003,8 @@ def run_sweep(ctx, rep, bins):
                 ws += ["((%d)%%Z, [120%%N])" % (b - 1), "((%d)%%Z, [121%%N])" % b]
             terms.append(("v%d" % j, "let c := %s in let s0 := init c [] 0%%N (%d)%%Z in map (map (fun x => (fst (fst x), N.of_nat (List.length (snd (fst x)))))) (observe s0 :: map (fun o => fst (fst (fst o))) (obs_trace_x c s0 [%s]))"
                           % (coq_cfg(d, True), d["t0"], "; ".join(ws))))
-        res = coq_eval(ctx, "From Coq Require Import ZArith NArith List String.\nFrom TV Require Import Appender.RollingModel.\nImport ListNotations.\n", terms, tag="sweepsub")
+        res = coq_eval(ctx, "From Coq Require Import ZArith NArith List String.\nFrom TV Require Import Appender.RollingModel.\nImport ListNotations.\n", terms, tag="sweepsub_%d" % os.getpid())
+        shutil.rmtree(os.path.join(ctx.work, "sweepsub_%d" % os.getpid()), ignore_errors=True)
         inp = "\n".join(desc_line(d) for d in sub) + "\n"
         outp = os.path.join(work, "model-sub.txt")
         rc, o = vlib.sh([model_exe, outp], 300, input=inp)
@@ -1028,7 +1029,7 @@ def run_sweep(ctx, rep, bins):
 def run_cases(ctx, binpath, cases, gap_ms, tag, nproc=None):
     """run the harness over `cases` in parallel processes; returns {id: observation}"""
     nproc = nproc or max(2, min(8, vlib.NCPU // 2))
-    work = os.path.join(ctx.work, "dirs_" + tag)
+    work = os.path.join(ctx.work, "dirs_%s_%d" % (tag, os.getpid()))
     shutil.rmtree(work, ignore_errors=True)
     os.makedirs(work)
     chunks = [cases[i::nproc] for i in range(nproc)]
@@ -1170,14 +1171,14 @@ def run(ctx):
     rep.trusted_base = [
         "Coq 8.16.1 kernel + vm_compute", "translators/rolling.py (targeted extraction from rolling.rs; fails closed via gen_unrecognised = [])",
         "harness h_rolling.rs + hook H1 (clock override, yield_point(1)) in /repo under cfg(tracing_verif)",
-        "the file system: O_APPEND writes are whole, created() orders files created >= gap apart (granularity measured every run)",
+        "the file system: O_APPEND writes are whole; created() stamps come from one non-decreasing clock (the harness reads a probe file's stamp back before every creation until it is strictly newer than every entry, re-checks after every operation and re-runs a case in which stamps tie)",
         "time crate: OffsetDateTime arithmetic/formatting (dependency; cross-checked against Time/Civil.v by the correspondence)",
         "atomicity reduction: refresh_writer under the write lock is one model step; std RwLock semantics",
         "Python oracle (datetime calendar, period arithmetic)"]
     rep.assumptions = ["clock readings 0 <= t < 2^62 in the theorems (the `as usize` cast; pre-1970 clocks are outside the property); cases use 0 <= t <= 2*10^11 (4-digit years)",
                        "no I/O errors (create/open/remove succeed), nobody else modifies the directory, names are valid UTF-8",
                        "max_log_files >= 1 (0 underflows `max_files - 1`: outside the property's quantifier)",
-                       "created() stamps of distinct files differ and follow real time (harness spaces creations by > 2x the measured granularity)"]
+                       "created() stamps of distinct files differ and follow creation order (enforced by read-back, not by sleeping: see harness clock_barrier / check_stamps)"]
     # ---- leg B1: translator
     text, unrec = rolling_tr.main(ctx.repo, None)
     gen_if_changed(os.path.join(vlib.COQ, "gen", "Gen_rolling.v"), text)
@@ -1207,6 +1208,8 @@ def run(ctx):
         rep.tie("fs:created-granularity", False, "created() unsupported or no clock step observed: %s" % info)
         return rep
     gap_ms = max(10.0, 2.5 * gran / 1e6)
+    if os.environ.get("VERIF_C16_GAP_MS"):      # self-test of the creation barrier: with a gap below the granularity every
+        gap_ms = float(os.environ["VERIF_C16_GAP_MS"])   # creation would tie without it (see notes/C16.md)
     rep.extra["fs_created_granularity_ns"] = gran
     rep.extra["creation_gap_ms"] = gap_ms
     ctx.log("created() granularity %.2f ms -> gap %.1f ms" % (gran / 1e6, gap_ms))
@@ -1234,7 +1237,8 @@ def run(ctx):
             grp = det[i:i + 25]
             terms.append(("g%d" % i, "[" + "; ".join("(%s)" % coq_case(c, recheck) for c in grp) + "]"))
         res = coq_eval(ctx, "From Coq Require Import ZArith List String.\nFrom TV Require Import Appender.RollingModel.\nImport ListNotations.\n", terms,
-                       shards=min(vlib.NCPU, max(1, len(terms))))
+                       shards=min(vlib.NCPU, max(1, len(terms))), tag="cases_%d" % os.getpid())   # per run: coq_eval rmtree's its directory
+        shutil.rmtree(os.path.join(ctx.work, "cases_%d" % os.getpid()), ignore_errors=True)
         for i in range(0, len(det), 25):
             for c, r in zip(det[i:i + 25], res["g%d" % i]):
                 model[c["id"]] = r
@@ -1265,6 +1269,10 @@ def run(ctx):
             if o is None:
                 continue
             rep.count("iface:" + ("malformed" if c.get("malformed") else "race" if c.get("race") else c["iface"]))
+            if o.get("barrier_waits"):
+                rep.count("fs:creation-barrier-waits", o["barrier_waits"])
+            if o.get("stamp_reruns"):
+                rep.count("fs:case-rerun-for-equal-created-stamps", o["stamp_reruns"])
             if c.get("malformed"):
                 rep.count("malformed:" + c["malformed"])
                 continue
